@@ -1,7 +1,9 @@
 """C02 — confocal image reconstruction conserves photon counts: correspondence + oracle (DESIGN.md 6/C02).
 
 Case forms (all JSON):
-  {"op": "sum", "data": [...], "iw": [...], "shape": [...]}            reconstruct_image_sum called directly
+  {"op": "sum", "data": [...], "iw": [...], "shape": [...]}            reconstruct_image_sum called directly (while it
+                                                                      is reachable under that private path) AND the same
+                                                                      reconstruction read off a real Kymo / Scan
   {"op": "kymo"|"scan", "gen": {...}}                                 generated object (expanded deterministically)
   {"op": "kymo"|"scan", "iw": [...], "P":, ["L", "fast", "slow", "scan_count"], "channels": {...}, "lead": {...}}
                                                                       explicit object (corpus, replays)
@@ -63,9 +65,11 @@ THEOREMS = [
 ]
 RULE = (
     "corpus (documented interleaved-discard wave, non-constant samples per pixel, truncated colours) + exhaustive small "
-    "scope: (a) reconstruct_image_sum called directly on EVERY info wave over codes {0,1,2} up to length 8 (quick: 6) with "
+    "scope: (a) reconstruct_image_sum called directly (while reachable under its private path) AND the same reconstruction "
+    "read off a real Kymo (shape [P]) / Scan (shape [L,P]) made of the wave through the public API, on EVERY info wave over "
+    "codes {0,1,2} up to length 8 (quick: 6) with "
     "counts 2^i (a pixel value identifies exactly which samples were summed), several target shapes, plus waves with "
-    "the undocumented code 3, plus size mismatches; (b) real Kymo objects for P<=3, k<=2, dead<=2, lead-in<=1, "
+    "the undocumented code 3, plus size mismatches (direct call only); (b) real Kymo objects for P<=3, k<=2, dead<=2, lead-in<=1, "
     "lines<=3 and real Scan objects for P,L in {2,3}, k<=2, dead<=2, frames<=2 (+frame dead time), both fast-axis "
     "orders, metadata frame count 0 and explicit, each truncated at EVERY sample (quick: a subset of these layouts, every "
     "2nd/3rd truncation point), with a full "
@@ -298,21 +302,68 @@ def impl_window(case):
     return out
 
 
+UNOBSERVED = "?"  # an observation that could not be made (never an answer of the implementation): ignored by agree/oracle
+_DIRECT = []  # [reconstruct_image_sum | None], resolved once
+
+
+def direct_sum(case):
+    """reconstruct_image_sum (anchored mechanism; lives under the private path lumicks.pylake.detail.image) called
+    directly - only while it is reachable under that name and with that signature.  A refactoring may move or rename
+    it: the tie is then kept by `public_sum`, and this observation is UNOBSERVED."""
+    if not _DIRECT:
+        try:
+            from lumicks.pylake.detail.image import reconstruct_image_sum
+
+            _DIRECT.append(reconstruct_image_sum)
+        except ImportError:  # module moved / function renamed
+            _DIRECT.append(None)
+    f = _DIRECT[0]
+    if f is None:
+        return UNOBSERVED
+    data = np.asarray(case["data"], dtype=float)
+    iw = np.asarray(case["iw"], dtype=np.uint8)
+    try:
+        return show_img(f(data, iw, tuple(case["shape"])))
+    except TypeError as ex:
+        if ex.__traceback__ is not None and ex.__traceback__.tb_next is None:
+            return UNOBSERVED  # the call itself was refused (private signature changed): nothing was computed
+        return errname(ex)
+    except Exception as ex:
+        return errname(ex)
+
+
+def public_sum(case):
+    """The same observation through the public API.  Info wave and counts become a real object made by
+    low_level.create_confocal_object: a Kymo with P pixels per line for shape [P], a Scan (X fast, Y slow; frame count
+    from the info wave) with P pixels per line and L lines per frame for shape [L, P] (L, P >= 2: only the frame axis can
+    then be squeezed away).  get_image("red") with the spatial arrangement undone - kymograph: transposed back; scan:
+    the frame axis restored - is the reconstruction reshaped to (-1, *shape), errors included (no completed pixel:
+    IndexError).  Not available for a size mismatch (a photon stream of another length is ALIGNED, not refused)."""
+    sh, data, iw = list(case["shape"]), case["data"], case["iw"]
+    if len(data) != len(iw) or not ((len(sh) == 1 and sh[0] >= 1) or (len(sh) == 2 and min(sh) >= 2)):
+        return UNOBSERVED
+    if any(not isinstance(d, int) or not 0 <= d < 2**53 for d in data):
+        return UNOBSERVED
+    with bc.quiet():
+        try:
+            if len(sh) == 1:
+                img = np.asarray(bc.make_kymo(iw, sh[0], {"red": data}).get_image("red")).T
+            else:
+                img = np.asarray(bc.make_scan(iw, sh[1], sh[0], {"red": data}).get_image("red"))
+                if img.ndim == 2:
+                    img = img[None]
+            return show_img(img)
+        except Exception as ex:
+            return errname(ex)
+
+
 def impl(case):
     if case["op"] == "window":
         return impl_window(case)
     if case["op"] == "seq":
         return impl_seq(case)
     if case["op"] == "sum":
-        from lumicks.pylake.detail.image import reconstruct_image_sum
-
-        try:
-            img = reconstruct_image_sum(
-                np.asarray(case["data"], dtype=float), np.asarray(case["iw"], dtype=np.uint8), tuple(case["shape"])
-            )
-            return [show_img(img)]
-        except Exception as e:
-            return [errname(e)]
+        return [direct_sum(case), public_sum(case)]
     e = explicit(case)
     out = []
     with bc.quiet():
@@ -355,7 +406,7 @@ def ops(case):
         _, _, iwc, chans, _ = window_parts(case)
         return [f"c02.kymo {case['P']} {enc_list(iwc)} 0 {enc_chan(chans[c])}" for c in COLORS]
     if case["op"] == "sum":
-        return [f"c02.sum {enc_list(case['data'])} {enc_list(case['iw'])} {enc_list(case['shape'])}"]
+        return [f"c02.sum {enc_list(case['data'])} {enc_list(case['iw'])} {enc_list(case['shape'])}"] * 2  # direct, public
     e = explicit(case)
     iw = enc_list(e["iw"])
     lead = e.get("lead") or {}
@@ -374,6 +425,11 @@ def ops(case):
             out.append(f"c02.scan {ax} {iw} {int(lead.get(c, 0))} {enc_chan(e['channels'].get(c))}")
         out.append(f"c02.scanmeta {ax} {int(e.get('scan_count', 0))} {iw}")
     return out
+
+
+def agree(case, i, ia, ma):
+    """string equality; an observation that could not be made says nothing"""
+    return ia == UNOBSERVED or ia == ma
 
 
 # ------------------------------------------------------------------ oracle (plain Python/NumPy from the property text)
@@ -567,15 +623,17 @@ def oracle(case, ia):
         if any(c > 2 for c in iw):
             return None
         if len(iw) != len(data):
-            return None if ia[0] == "ValueError" else f"size-mismatch: expected ValueError, got {ia[0][:80]}"
+            return None if ia[0] in ("ValueError", UNOBSERVED) else f"size-mismatch: expected ValueError, got {ia[0][:80]}"
         px = assigned_pixels(iw, data)
         if not px:
             return None  # no completed pixel: not judged
         prod = int(np.prod(case["shape"]))
         m = -(-len(px) // prod) * prod
         exp = "[" + ",".join(map(str, [m // prod] + list(case["shape"]))) + "] [" + ",".join(map(str, px + [0] * (m - len(px)))) + "]"
-        if ia[0] != exp:
-            return f"pixel-sums: reconstruct_image_sum gave {ia[0][:200]}, the samples assigned to each pixel sum to {exp[:200]}"
+        routes = ("reconstruct_image_sum", 'the red image of the Kymo/Scan made of this info wave (arrangement undone)')
+        for a, route in zip(ia, routes):
+            if a != UNOBSERVED and a != exp:
+                return f"pixel-sums: {route} gave {a[:200]}, the samples assigned to each pixel sum to {exp[:200]}"
         return None
     if case["op"] == "seq":
         return oracle_seq(case, ia)
@@ -624,7 +682,8 @@ def nontrivial(case, ia):
     if case["op"] == "window":
         return True
     if case["op"] == "sum":
-        return ia[0].endswith("Error") or bc.count_pixels(case["iw"]) >= 1
+        seen = [a for a in ia if a != UNOBSERVED]
+        return bool(seen) and (seen[0].endswith("Error") or bc.count_pixels(case["iw"]) >= 1)
     if case["op"] == "seq":
         # some colour is answered twice with an image, and some image is non-zero
         Q, ans = case["queries"], ia[0].split(";")
